@@ -52,7 +52,16 @@ fn check(st: &St, thresholds: &[f64], comparisons: &mut u64) -> Option<(String, 
     // own products s*n, eps*n carry 2^-53 relative: 8 * 2^-53 * max(s, eps) * n covers the sum
     let env = |s: f64| -> f64 { 8.0 * (f64::EPSILON / 2.0) * s.max(eps) * n };
     let truth = |x: u32| -> u64 { if x < 3 { st.abc[x as usize] } else if x >= 1000 && x < 1000 + st.fresh { 1 } else { 0 } };
-    for &s in thresholds {
+    // state-dependent thresholds: (s - eps) * n a hair (2^-30) above a whole number k - the inclusion bound must then be k + 1,
+    // so an element with true frequency k (and f <= true) may not be returned; arithmetic narrower than f64 rounds the hair away
+    let mut ths: Vec<f64> = thresholds.to_vec();
+    for k in 1..=st.n.min(6) {
+        let s = eps + (k as f64 + 2f64.powi(-30)) / n;
+        if s <= 1.0 {
+            ths.push(s);
+        }
+    }
+    for &s in &ths {
         let mut res: Vec<u32> = lc.query(s).collect();
         res.sort_unstable();
         let mut dedup = res.clone();
